@@ -803,8 +803,17 @@ func init() {
 			}
 			return nil
 		},
+		// sync.Pool: items that were Put are handed out again (LIFO), like the
+		// per-P private slot of the real pool on a single goroutine
 		"(*sync.Pool).Get": func(in *Interp, _ *ssa.Function, a []Value, c *frame) Value {
 			p := a[0].(*Value)
+			key := "pool:" + fmt.Sprintf("%p", p)
+			if st, ok := in.natives[key].(sliceV); ok && st.n > 0 {
+				v := *st.at(st.n - 1)
+				st.n--
+				in.natives[key] = st
+				return v
+			}
 			st := (*p).(structV)
 			newf := st[len(st)-1]
 			if _, isNil := newf.(nilV); isNil {
@@ -812,7 +821,13 @@ func init() {
 			}
 			return in.callFunc(newf, nil, c)
 		},
-		"(*sync.Pool).Put": retNil,
+		"(*sync.Pool).Put": func(in *Interp, _ *ssa.Function, a []Value, c *frame) Value {
+			p := a[0].(*Value)
+			key := "pool:" + fmt.Sprintf("%p", p)
+			st, _ := in.natives[key].(sliceV)
+			in.natives[key] = appendVals(st, []Value{a[1]})
+			return nil
+		},
 		"(*sync.WaitGroup).Add": func(in *Interp, _ *ssa.Function, a []Value, _ *frame) Value {
 			p := a[0].(*Value)
 			n, _ := in.natives["wg:"+fmt.Sprintf("%p", p)].(*Term)
